@@ -199,16 +199,16 @@ Proof. exact (conj (proj1 timeout_fixed_witness) (conj (proj2 timeout_fixed_witn
    ACTIVE slot answers its expire_time, "running", and max 0 (expire_time - clock).  Formal reading of "non-zero
    exactly while pending": between expiry and the loop turn that moves the timer to the job list the time
    remaining is already 0 while is_running still holds; once queued or dispatched or deleted all are 0. *)
-Theorem C09_queries_agree : forall st h,
-  (is_running st h = 1 <-> expire_time_get st h > 0) /\
-  (is_running st h = 0 <-> expire_time_get st h <= 0) /\
-  (forall i s, timer_from_handle st h = LOk i s -> s_state s <> LT_ENTRY_ACTIVE ->
-     expire_time_get st h = 0 /\ is_running st h = 0 /\ fst (time_remaining st h) = 0) /\
-  (forall i s tm, timer_from_handle st h = LOk i s -> s_state s = LT_ENTRY_ACTIVE -> s_th s = Some tm -> 0 < t_exp tm ->
-     expire_time_get st h = t_exp tm /\ is_running st h = 1 /\
-     fst (time_remaining st h) = Z.max 0 (t_exp tm - clk st)) /\
-  (forall e, timer_from_handle st h = LErr e ->
-     expire_time_get st h = 0 /\ is_running st h = 0 /\ fst (time_remaining st h) = 0).
+Theorem C09_queries_agree : forall fx st h,
+  (is_running fx st h = 1 <-> expire_time_get fx st h > 0) /\
+  (is_running fx st h = 0 <-> expire_time_get fx st h <= 0) /\
+  (forall i s, timer_from_handle fx st h = LOk i s -> s_state s <> LT_ENTRY_ACTIVE ->
+     expire_time_get fx st h = 0 /\ is_running fx st h = 0 /\ fst (time_remaining fx st h) = 0) /\
+  (forall i s tm, timer_from_handle fx st h = LOk i s -> s_state s = LT_ENTRY_ACTIVE -> s_th s = Some tm -> 0 < t_exp tm ->
+     expire_time_get fx st h = t_exp tm /\ is_running fx st h = 1 /\
+     fst (time_remaining fx st h) = Z.max 0 (t_exp tm - clk st)) /\
+  (forall e, timer_from_handle fx st h = LErr e ->
+     expire_time_get fx st h = 0 /\ is_running fx st h = 0 /\ fst (time_remaining fx st h) = 0).
 Proof. exact queries_agree. Qed.
 Print Assumptions C09_queries_agree.
 
@@ -221,7 +221,7 @@ Print Assumptions C09_expire_time_positive.
 (* is_running as found: now + duration = 2^64 gives expire_time 0, reported "not running" while pending *)
 Theorem C09_is_running_refuted :
   let st := run as_found [] init0 [Cb (CAdd 2 (two64 - 1000) 1 7)] in
-  is_running st (nth 0 (issued st) 0) = 0 /\ ents (heap st) <> [].
+  is_running as_found st (nth 0 (issued st) 0) = 0 /\ ents (heap st) <> [].
 Proof. exact is_running_as_found_refuted. Qed.
 Print Assumptions C09_is_running_refuted.
 
